@@ -99,6 +99,8 @@ func unignoreRules(ignoredRules *ignoredRules, rules []Rule) {
 }
 
 func parseIgnoreComment(comment string) (string, []Rule) {
+	// a line comment of a file with CRLF line ends carries the carriage return
+	comment = strings.TrimSpace(comment)
 	body := strings.TrimLeft(comment, "#@*/ ")
 	if strings.HasPrefix(comment, "/*") {
 		// a block comment carries its terminator: "/* falco-ignore */"
